@@ -97,6 +97,13 @@ fn flip_mid(s: &str) -> String {
     String::from_utf8(b).unwrap()
 }
 
+/// a message of 1.5 KiB that starts with `tag`
+fn big(tag: &[u8]) -> Vec<u8> {
+    let mut v = tag.to_vec();
+    v.resize(1536, b'.');
+    v
+}
+
 fn material<B: Backend>(rng: &mut Prng) -> Material {
     let local = rng.bytes(32);
     let pair = keys::signing_pairs::<B>(rng, 1).remove(0);
@@ -125,7 +132,7 @@ fn material<B: Backend>(rng: &mut Prng) -> Material {
         pw_rejected_params,
         tok_local_bad: flip_mid(&tok_local),
         tok_public_bad: flip_mid(&tok_public),
-        tok_public_other: UnsealedToken::<B::V, Public, Raw>::new(Raw(b"another message".to_vec())).seal(&sk, aad).unwrap().to_string(),
+        tok_public_other: UnsealedToken::<B::V, Public, Raw>::new(Raw(big(b"another message"))).seal(&sk, aad).unwrap().to_string(),
         // degenerate tokens: the signature (all of a public token's bytes after the message) and a whole local body of zero bytes
         tok_public_zero: {
             let hdr = crate::drive_tokens::header::<B, Public>();
@@ -175,13 +182,16 @@ fn apply<B: Backend>(v: &str, k: &Keys<B>, m: &Material, check: &Keys<B>) -> (Ou
     };
     match v {
         "sign" => {
-            let t = UnsealedToken::<B::V, Public, Raw>::new(Raw(b"m".to_vec())).seal(&k.secret, aad).map(|t| t.to_string());
-            let post = t.as_ref().ok().map(|s| SealedToken::<B::V, Public, Raw>::from_str(s).and_then(|t| t.unseal(&check.public, aad, &nv())).map(|u| u.claims.0 == b"m").unwrap_or(false)).unwrap_or(false);
+            // messages on both sides of a kibibyte take turns (buffers that only larger inputs reach)
+            let msg = big(b"m");
+            let t = UnsealedToken::<B::V, Public, Raw>::new(Raw(msg.clone())).seal(&k.secret, aad).map(|t| t.to_string());
+            let post = t.as_ref().ok().map(|s| SealedToken::<B::V, Public, Raw>::from_str(s).and_then(|t| t.unseal(&check.public, aad, &nv())).map(|u| u.claims.0 == msg).unwrap_or(false)).unwrap_or(false);
             (r(t.map(|s| s.into_bytes())), m.deterministic_sign, post)
         }
         "encrypt" => {
-            let t = UnsealedToken::<B::V, Local, Raw>::new(Raw(b"m".to_vec())).seal(&k.local, aad).map(|t| t.to_string());
-            let post = t.as_ref().ok().map(|s| SealedToken::<B::V, Local, Raw>::from_str(s).and_then(|t| t.unseal(&check.local, aad, &nv())).map(|u| u.claims.0 == b"m").unwrap_or(false)).unwrap_or(false);
+            let msg = big(b"m");
+            let t = UnsealedToken::<B::V, Local, Raw>::new(Raw(msg.clone())).seal(&k.local, aad).map(|t| t.to_string());
+            let post = t.as_ref().ok().map(|s| SealedToken::<B::V, Local, Raw>::from_str(s).and_then(|t| t.unseal(&check.local, aad, &nv())).map(|u| u.claims.0 == msg).unwrap_or(false)).unwrap_or(false);
             (r(t.map(|s| s.into_bytes())), false, post)
         }
         // sealing / wrapping the shared local key (fresh randomness each time): the result opens to the same key with a fresh copy
